@@ -9,9 +9,9 @@ SESSION = os.path.join(common.VERIF, "harness", "memsession.py")
 KEYVAL = {"a": 3, "b": 4}
 
 
-def mcfg(name, gen=False, maxops=6, procs=(1, 2), slots=(1, 2), fix=(True, True, True), invariants=("ValueCorrect",), props=("HitWhenDue",)):
+def mcfg(name, gen=False, maxops=6, procs=(1, 2), slots=(1, 2), stores=(1,), fix=(True, True, True), invariants=("ValueCorrect",), props=("HitWhenDue",)):
     path = os.path.join(common.VERIF, "out", "cfg", "MD_%s.cfg" % name)
-    consts = dict(Procs=set(procs), Slots=set(slots), Vers={1, 2}, Keys={"a", "b"}, MaxOps=maxops, FixD6=fix[0], FixD13=fix[1], FixD5c=fix[2], Gen=gen)
+    consts = dict(Procs=set(procs), Slots=set(slots), Vers={1, 2}, Keys={"a", "b"}, Stores=set(stores), MaxOps=maxops, FixD6=fix[0], FixD13=fix[1], FixD5c=fix[2], Gen=gen)
     if gen:
         tlc.write_cfg(path, constants=consts, init="Init", next="Next", constraint="Emit")
     else:
@@ -20,9 +20,9 @@ def mcfg(name, gen=False, maxops=6, procs=(1, 2), slots=(1, 2), fix=(True, True,
 
 
 class Session:
-    def __init__(self, root, work, kind):
+    def __init__(self, root, work, kind, stores=(1, 2)):
         env = dict(os.environ, PYTHONPATH="/repo", PYTHONHASHSEED="0", PYTHONDONTWRITEBYTECODE="1")
-        self.p = subprocess.Popen([PY, "-u", SESSION, json.dumps({"root": root, "work": work, "kind": kind})], env=env,
+        self.p = subprocess.Popen([PY, "-u", SESSION, json.dumps({"root": root, "work": work, "kind": kind, "stores": list(stores), "log": os.path.join(root, "..", "exec.log")})], env=env,
                                   stdin=subprocess.PIPE, stdout=subprocess.PIPE, stderr=subprocess.PIPE, text=True, bufsize=1)
 
     def do(self, op):
@@ -77,19 +77,20 @@ def replay(args):
                 for o in [o for o in ocode if o[0] == e["p"]]: del ocode[o]
                 r = {}
             elif op == "clear":
-                r = sess(e["p"]).do({"op": "clear", "i": e["i"]}); must.clear()
+                r = sess(e["p"]).do({"op": "clear", "i": e["i"], "s": e.get("s", 1)})
+                for kk in [kk for kk in must if kk[0] == e.get("s", 1)]: del must[kk]
             elif op == "evict":
-                evict(root, KEYVAL[e["k"]]); must.pop(e["k"], None); r = {}
+                evict(os.path.join(root, "store%s" % e.get("s", 1)), KEYVAL[e["k"]]); must.pop((e.get("s", 1), e["k"]), None); r = {}
             elif op == "call":
-                v = ocode[(e["p"], e["i"])]; k = e["k"]; calls += 1
-                r = sess(e["p"]).do({"op": "call", "i": e["i"], "k": KEYVAL[k]})
+                v = ocode[(e["p"], e["i"])]; st = e.get("s", 1); k = (st, e["k"]); calls += 1
+                r = sess(e["p"]).do({"op": "call", "i": e["i"], "s": st, "k": KEYVAL[e["k"]]})
                 if "exc" not in r:
-                    if r["value"] != ["v%d" % v, KEYVAL[k]]:
+                    if r["value"] != ["v%d" % v, KEYVAL[e["k"]]]:
                         problems.append({"kind": "value_of_other_code", "step": n, "called_version": v, "got": r["value"]})
                     elif must.get(k) == v and r["executed"]:
                         problems.append({"kind": "executed_although_cached", "step": n, "called_version": v})
-                    if any(mv != v for mv in must.values()):
-                        must.clear()
+                    if any(mv != v for kk, mv in must.items() if kk[0] == st):
+                        for kk in [kk for kk in must if kk[0] == st]: del must[kk]
                     must[k] = v
             if "exc" in r:
                 problems.append({"kind": "exception", "step": n, "op": e, "exc": r["exc"], "msg": r.get("msg")})
@@ -104,6 +105,7 @@ def body(c):
     # 1. model check (all histories up to the bound), incl. sensitivity to the repaired defects
     # sessions are sequential in C12's quantifier (one process, or fresh processes one after the other): one process + Restart
     c.model_check("MemoryDesign[sequential sessions,7ops]", "MemoryDesign", mcfg("mc7", maxops=7, procs=(1,)), workers=16)
+    c.model_check("MemoryDesign[two stores,6ops]", "MemoryDesign", mcfg("mc6s2", maxops=6, procs=(1,), slots=(1, 2), stores=(1, 2)), workers=16)
     if not c.quick:
         c.model_check("MemoryDesign[sequential sessions,10ops]", "MemoryDesign", mcfg("mc10", maxops=10, procs=(1,)), workers=16, timeout=1500)
     sens = []
@@ -126,6 +128,10 @@ def body(c):
                 depth=12, seed=c.seed + 3, workers=1, timeout=900)
     c.add_tlc("MemoryDesign-simulate[long]", r)
     h2 = tlc.printed_json(r)
+    r = tlc.run("MemoryDesign", mcfg("gen3", gen=True, maxops=6 if c.quick else 8, procs=(1,), slots=(1, 2), stores=(1, 2)), simulate="num=%d" % (300 if c.quick else 3000),
+                depth=12, seed=c.seed + 5, workers=1, timeout=900)
+    c.add_tlc("MemoryDesign-simulate[two stores]", r)
+    h2 += tlc.printed_json(r)
     import random
     rng = random.Random(c.seed)
     # histories without any call teach nothing; keep those with >= 2 calls
@@ -153,7 +159,7 @@ def body(c):
         _, hist, kind, _ = byid[hid]
         c.nontrivial.add((kind, json.dumps(hist, sort_keys=True)))
         for pb in problems:
-            key = {"kind": pb["kind"], "function_kind": kind, "history": [[e["op"]] + [e.get(x) for x in ("p", "i", "v", "k") if x in e] for e in hist]}
+            key = {"kind": pb["kind"], "function_kind": kind, "history": [[e["op"]] + [e.get(x) for x in ("p", "i", "v", "s", "k") if x in e] for e in hist]}
             c.violation(key, "C12: %s (function kind %s) in history %s: %s" % (pb["kind"], kind, key["history"], pb), {})
     for j in jobs[:: max(1, len(jobs) // 4)][:4]:
         c.sample({"function_kind": j[2], "history": j[1]})
